@@ -160,8 +160,14 @@ def feature_matrix(tier, seed):
         if r.returncode != 0 or len(impl) != len(cases) or len(model) != len(cases):
             out["failures"].append({"what": f"feature build {name} crashed", "stderr": r.stderr[-400:]})
             continue
+        # C14 inside every feature build: vfeat repeats each case with the predictor that comes back from its own serialisation
+        rt = [i for i in range(len(cases)) if "AFTER-SERIALISE-DESERIALISE" in impl[i]]
+        for i in rt[:1]:
+            a, b2 = impl[i].split(";AFTER-SERIALISE-DESERIALISE:", 1)
+            out["failures"].append({"what": f"in the build with features {feats or ['(none)']} a predictor gives another result after serialize_to_vec -> deserialize_from_slice_unchecked",
+                                    "case": cases[i], "original_predictor": a[:600], "deserialised_predictor": b2[:600]})
         bad = [i for i in range(len(cases)) if impl[i] != model[i]]
-        out["stats"][name] = {"cfg": cfg, "features": feats, "cases": len(cases), "model_disagreements": len(bad)}
+        out["stats"][name] = {"cfg": cfg, "features": feats, "cases": len(cases), "model_disagreements": len(bad), "serialise_roundtrip_differences": len(rt)}
         if bad:
             i = bad[0]
             out["suspicions"].append(f"build {name} (cfg {cfg}) differs from the model on case {cases[i][:300]}: impl {impl[i][:200]} model {model[i][:200]}")
